@@ -301,7 +301,7 @@
         std::mem::forget(part);
     }
 
-// @h id=H8.4-k$k prop=C08 rep="k:0-3" quick="0-3" cap=900 mem=16 unwind=11 uw="read_dir_rec=3" checks=std recfail=cex stubs="Directory::from_reader -> fixed-shape reference parser (1 entry)" bounds="pointer-graph hazard class k of {0: leaf pointer to its own directory; 1: two directories pointing at each other; 2: leaf_dir_offset = 2^64-1 and any pointer offset >= 1 (sum overflows); 3: chain root -> leaf -> leaf -> tile entry (depth 3, legal)}; recursion bound 11 > the walk's depth limit of 4"
+// @h id=H8.4-k$k prop=C08 rep="k:0,1,3" quick="0,1,3" cap=900 mem=16 unwind=11 uw="read_dir_rec=3" checks=std recfail=cex stubs="Directory::from_reader -> fixed-shape reference parser (1 entry)" bounds="pointer-graph hazard class k of {0: leaf pointer to its own directory; 1: two directories pointing at each other; 2: leaf_dir_offset = 2^64-1 and any pointer offset >= 1 (sum overflows); 3: chain root -> leaf -> leaf -> tile entry (depth 3, legal)}; recursion bound 11 > the walk's depth limit of 4"
     /// hostile leaf pointers (cycles, offsets near 2^64) are answered with an error, legal nesting with a value: no crash, no unbounded recursion
     #[kani::proof]
     #[kani::stub(crate::directory::Directory::from_reader, stub_from_reader1)]
@@ -332,5 +332,21 @@
             assert!(r.is_err());
         }
         kani::cover!(true);
+        std::mem::forget(r);
+    }
+
+// @h id=H8.4o prop=C08 tier=quick cap=600 mem=16 unwind=11 uw="rec:read_dir_rec=1;read_dir_rec=3" checks=std stubs="Directory::from_reader -> fixed-shape reference parser (1 entry)" bounds="root = one leaf pointer with any offset >= 1, leaf_dir_offset = 2^64-1 (the sum always leaves u64); recursion bound 1: the walk must reject before descending"
+    /// leaf_dir_offset + pointer offset past 2^64 is answered with an error before any descent
+    #[kani::proof]
+    #[kani::stub(crate::directory::Directory::from_reader, stub_from_reader1)]
+    fn h8_4o_leaf_offset_overflow() {
+        let off: u64 = kani::any();
+        kani::assume(off >= 1 && off < u64::MAX);
+        let mut img = [0u8; 3 * L1];
+        put1(&mut img, 0, &[REntry { tile_id: 0, offset: off, length: L1 as u32, run_length: 0 }]);
+        let r = read_directories(&mut Cursor::new(&img[..]), Compression::None, (0, L1 as u64), u64::MAX, ..);
+        assert!(r.is_err());
+        kani::cover!(off == 1);
+        kani::cover!(off == u64::MAX - 1);
         std::mem::forget(r);
     }
